@@ -52,6 +52,8 @@ def run(rep):
     rep.run(unions)
     rep.run(other_readers, order)
     rep.run(pipeline)
+    from . import C10
+    rep.run(C10.implicit_h, "O1.6")  # its_to_rsmi folds non-centre hydrogens through implicit_hydrogen
 
 
 # ------------------------------------------------------------------ O1.1
@@ -296,6 +298,13 @@ def standard_order(rep):
 
     for t, st in writes:
         v = st.value
+        wrappers = []
+        while isinstance(v, ast.Call) and isinstance(v.func, ast.Name) and v.func.id in ("int", "round", "float", "abs") and v.args:
+            wrappers.append(v.func.id)
+            v = v.args[0]
+        lossy = [w for w in wrappers if w in ("int", "round", "abs")]
+        if lossy:
+            rep.ob("O1.3", "R15", fi, False, st, f"standard_order must be the exact difference: `{lossy[0]}()` truncates half-order changes (aromatic 1.5 <-> 1 / 2) or drops the sign")
         if not isinstance(v, ast.Name):
             rep.ob("O1.3", "R15", fi, None, st, "standard_order written from a non-variable")
             continue
